@@ -429,11 +429,41 @@ _MISSING = object()
 
 
 class _B64Token:
-    def __init__(self, tok: str) -> None:
+    """result of base64.b64encode(symbolic): an opaque token when only
+    ``.decode()`` is asked for (dict-key use in pymap.mime), the exact
+    encoding as soon as anything else looks at it"""
+    _sym = True
+
+    def __init__(self, tok: str, src: Any) -> None:
         self.tok = tok
+        self.src = src
+        self._exact: Any = None
 
     def decode(self, *a: Any) -> str:
         return self.tok
+
+    def exact(self) -> Any:
+        if self._exact is None:
+            from .codecs7 import b64encode_items
+            self._exact = SymBytes(b64encode_items(self.src.items), 'bytes')
+        return self._exact
+
+    def __getattr__(self, name: str) -> Any:
+        if name.startswith('__'):
+            raise AttributeError(name)
+        return getattr(self.exact(), name)
+
+    def __bytes__(self) -> Any:
+        return self.exact()
+
+    def __len__(self) -> int:
+        return len(self.exact())
+
+    def __eq__(self, o: Any) -> Any:
+        return self.exact() == o
+
+    def __hash__(self) -> int:
+        return hash(self.tok)
 
 
 _b64_table: dict[str, Any] = {}
@@ -443,19 +473,25 @@ def _b64encode(x: Any, *a: Any, **k: Any) -> Any:
     if isinstance(x, SymBytes):
         if x.is_concrete():
             return _base64.b64encode(_real_bytes(x.items), *a, **k)
+        if a or k:
+            raise Unsupported('b64encode altchars on symbolic data')
         tok = '\x00symb64:%d' % len(_b64_table)
-        _b64_table[tok] = SymBytes(x.items, 'bytes')
-        return _B64Token(tok)
+        src = SymBytes(x.items, 'bytes')
+        _b64_table[tok] = src
+        return _B64Token(tok, src)
     return _base64.b64encode(x, *a, **k)
 
 
 def _b64decode(x: Any, *a: Any, **k: Any) -> Any:
     if isinstance(x, str) and x in _b64_table:
         return _b64_table[x]
-    if isinstance(x, SymBytes):
+    if isinstance(x, _B64Token):
+        return x.src
+    if isinstance(x, (SymBytes, SymStr)):
         if x.is_concrete():
-            return _base64.b64decode(_real_bytes(x.items), *a, **k)
-        raise Unsupported('base64.b64decode of symbolic bytes')
+            return _base64.b64decode(x.lower_concrete(), *a, **k)
+        from .codecs7 import b64decode_items
+        return SymBytes(b64decode_items(x.items), 'bytes')
     return _base64.b64decode(x, *a, **k)
 
 
@@ -572,6 +608,40 @@ _itertools_facade = types.ModuleType('itertools')
 _itertools_facade.__dict__.update(vars(_itertools))
 _itertools_facade.chain = _chain  # type: ignore
 
+
+import datetime as _datetime_mod
+
+
+class _DTMeta(type):
+    def __instancecheck__(cls, x: Any) -> bool:
+        return isinstance(x, _datetime_mod.datetime)
+
+    def __subclasscheck__(cls, sub: Any) -> bool:
+        return issubclass(sub, _datetime_mod.datetime)
+
+
+class _datetime(_datetime_mod.datetime, metaclass=_DTMeta):
+    """datetime whose strptime() on symbolic text is an environment stub:
+    it either returns some datetime or raises ValueError (its documented
+    failure), chosen by a fresh symbolic Boolean"""
+
+    @classmethod
+    def strptime(cls, s: Any, fmt: str) -> Any:
+        if isinstance(s, SymStr) and not s.is_concrete():
+            eng = cur()
+            if eng.flip('strptime_ok_%d' % eng.nfresh):
+                tz = _datetime_mod.timezone.utc if '%z' in fmt else None
+                return _datetime_mod.datetime(2020, 1, 1, tzinfo=tz)
+            raise ValueError('time data does not match format (stub)')
+        if isinstance(s, SymStr):
+            s = s.lower_concrete()
+        return _datetime_mod.datetime.strptime(s, fmt)
+
+
+_datetime_facade = types.ModuleType('datetime')
+_datetime_facade.__dict__.update(vars(_datetime_mod))
+_datetime_facade.datetime = _datetime  # type: ignore
+
 def _import(name: str, globals: Any = None, locals: Any = None,
             fromlist: Any = (), level: int = 0) -> Any:
     if level == 0:
@@ -583,6 +653,8 @@ def _import(name: str, globals: Any = None, locals: Any = None,
             return _b64_facade
         if name == 'itertools':
             return _itertools_facade
+        if name == 'datetime':
+            return _datetime_facade
     return builtins.__import__(name, globals, locals, fromlist, level)
 
 
@@ -735,7 +807,7 @@ def _h_fuel() -> None:
 _METHODS = frozenset([
     'join', 'startswith', 'endswith', 'find', 'rfind', 'index', 'rindex',
     'split', 'rsplit', 'replace', 'strip', 'lstrip', 'rstrip', 'partition',
-    'rpartition', 'count', 'get', 'pop'])
+    'rpartition', 'count', 'get', 'pop', 'decode', 'encode', 'upper', 'lower'])
 
 
 class _Transform(ast.NodeTransformer):
